@@ -10,11 +10,12 @@ from harness import vlib
 from harness import c15lib as L
 
 THEOREMS = [
-    "C15_agree_partial", "C15_unpack_agree", "C15_unpack_agree_data",
+    "C15_agree_partial", "C15_exact_serializes",
     "C15_compositional_list", "C15_compositional_dict", "C15_compositional_tuple",
-    "C15_compositional_optional", "C15_compositional_field",
-    "C15_unpack_compositional_list", "C15_unpack_compositional_dict", "C15_unpack_compositional_optional",
-    "C15_frame_partial", "C15_frame_codec", "C15_frame_history",
+    "C15_compositional_optional", "C15_compositional_field", "C15_compositional_wrapper",
+    "C15_unpack_compositional_list", "C15_unpack_compositional_dict", "C15_unpack_compositional_tuple",
+    "C15_unpack_compositional_optional",
+    "C15_frame_partial", "C15_frame_creation_extends", "C15_frame_history",
     "C15_lookalike_refuted", "C15_subclass_refuted", "C15_frame_subclass_refuted",
     "C15_fieldless_member_refuted", "C15_dialect_priority_refuted",
 ]
